@@ -245,7 +245,9 @@ func (w *Watcher) fetchEvents(ctx context.Context, logger *zap.Logger, client *C
 				unconfirmedEvents = append(unconfirmedEvents, unconfirmed...)
 
 				fromIndex = events.NextStart
-				if events.NextStart == *count {
+				// The count may have moved since it was polled (NextStart can be past it), and a
+				// page past the end repeats its NextStart: never wait for equality.
+				if events.NextStart >= *count {
 					break
 				}
 			}
